@@ -54,7 +54,7 @@ def exit_is_a_hit(r, args):
 
 def gassweep(ctx, monitors):
     # failure points made by a finite block gas limit, enumerated exactly (harness/apph/gassweep.go)
-    args = twin_args(ctx, ['-cases', '80', '-targets', '6'], ['-cases', '2500', '-targets', '8']) + ['-monitors', monitors]
+    args = twin_args(ctx, ['-cases', '80', '-targets', '6'], ['-cases', '1000', '-targets', '8']) + ['-monitors', monitors]
     return exit_is_a_hit(run_olh(ctx, 'gassweep', args), args)
 
 
